@@ -11,10 +11,14 @@ import (
 	simwire "perun.network/go-perun/backend/sim/wire"
 	"perun.network/go-perun/channel"
 	"perun.network/go-perun/channel/persistence"
+	"perun.network/go-perun/channel/persistence/keyvalue"
 	"perun.network/go-perun/client"
 	"perun.network/go-perun/wallet"
 	"perun.network/go-perun/watcher/local"
 	"perun.network/go-perun/wire"
+
+	"polycry.pt/poly-go/sortedkv"
+	"polycry.pt/poly-go/sortedkv/memorydb"
 
 	"verif/sim/gen"
 	"verif/sim/kernel"
@@ -176,6 +180,9 @@ type Node struct {
 	Watcher *local.Watcher
 	Party   *Party
 	Rec     *Recorder
+	Port    *Port
+	// DB is the durable store behind the node's PersistRestorer (nil without persistence).
+	DB sortedkv.Database
 
 	mu       sync.Mutex
 	Chans    []*client.Channel
@@ -220,19 +227,30 @@ func wireAddr(name string) map[wallet.BackendID]wire.Address {
 
 // AddNode creates a client named name using pool account accIdx.
 func (w *World) AddNode(name string, accIdx int, pr persistence.PersistRestorer) *Node {
+	return w.addNode(name, accIdx, pr, nil)
+}
+
+// AddPersistentNode creates a client whose channels are persisted in db
+// through the real key-value PersistRestorer.
+func (w *World) AddPersistentNode(name string, accIdx int, db sortedkv.Database) *Node {
+	return w.addNode(name, accIdx, keyvalue.NewPersistRestorer(db), db)
+}
+
+func (w *World) addNode(name string, accIdx int, pr persistence.PersistRestorer, db sortedkv.Database) *Node {
 	n := &Node{W: w, Name: name, Acc: gen.Pool(accIdx + 1)[accIdx], Wire: wireAddr(name), chanByID: map[channel.ID]*client.Channel{},
-		CtxTimeout: 30 * time.Second, handleDone: make(chan struct{})}
+		CtxTimeout: 30 * time.Second, handleDone: make(chan struct{}), DB: db}
 	n.Wallet = simwallet.NewWallet()
 	_ = n.Wallet.AddAccount(n.Acc.Acc)
 	n.Wallet.IncrementUsage(n.Acc.Acc.Address()) // the account outlives every channel of the run
 	n.Party = w.Ledger.Party(name)
+	n.Port = w.Bus.NewPort()
 	w.Bus.Name(n.Wire, name)
 	wt, err := local.NewWatcher(n.Party)
 	if err != nil {
 		panic(err)
 	}
 	n.Watcher = wt
-	c, err := client.New(n.Wire, w.Bus, n.Party, n.Party, map[wallet.BackendID]wallet.Wallet{channel.TestBackendID: n.Wallet}, wt)
+	c, err := client.New(n.Wire, n.Port, n.Party, n.Party, map[wallet.BackendID]wallet.Wallet{channel.TestBackendID: n.Wallet}, wt)
 	if err != nil {
 		panic(err)
 	}
@@ -250,7 +268,9 @@ func (w *World) AddNode(name string, accIdx int, pr persistence.PersistRestorer)
 		w.S.Event(name, "new-channel", w.S.ChanName(ch.ID()))
 	})
 	w.Nodes[name] = n
-	w.names = append(w.names, name)
+	if !w.hasName(name) {
+		w.names = append(w.names, name)
+	}
 	go func() {
 		defer close(n.handleDone)
 		c.Handle(client.ProposalHandlerFunc(n.handleProposal), client.UpdateHandlerFunc(n.handleUpdate))
@@ -270,6 +290,50 @@ func (n *Node) SetNextAccNonce(k string) {
 	n.mu.Lock()
 	n.NextAccNonce = k
 	n.mu.Unlock()
+}
+
+func (w *World) hasName(name string) bool {
+	for _, x := range w.names {
+		if x == name {
+			return true
+		}
+	}
+	return false
+}
+
+// Crash kills the node's process as far as the world can tell: its bus port
+// and ledger handle go dead, its subscriber is detached, and a copy of its
+// durable store as of this instant is returned. The left-over goroutines of
+// the old instance can no longer affect anything.
+func (n *Node) Crash() sortedkv.Database {
+	n.Port.Kill()
+	n.Party.Dead.Store(true)
+	n.W.Bus.Detach(n.Wire)
+	n.W.S.Event(n.Name, "crash", "")
+	if n.DB == nil {
+		return nil
+	}
+	data := map[string]string{}
+	it := n.DB.NewIterator()
+	for it.Next() {
+		data[it.Key()] = it.Value()
+	}
+	_ = it.Close()
+	return memorydb.FromData(data)
+}
+
+// Restart creates a fresh client instance for the same identity on the given
+// store and restores its channels.
+func (n *Node) Restart(db sortedkv.Database) (*Node, error) {
+	w := n.W
+	idx := n.Acc.Idx
+	nn := w.addNode(n.Name, idx, keyvalue.NewPersistRestorer(db), db)
+	nn.OnProposal, nn.OnUpdate, nn.CtxTimeout = n.OnProposal, n.OnUpdate, n.CtxTimeout
+	ctx, cancel := nn.Ctx()
+	defer cancel()
+	err := nn.Client.Restore(ctx)
+	w.S.Event(n.Name, "restart", fmt.Sprintf("restored %d channel(s) err=%v", len(nn.Chans), err))
+	return nn, err
 }
 
 // Chan returns the node's controller for a channel.
